@@ -312,6 +312,40 @@ char const* pair_magnitude(T x, T y)
 }
 
 // ---------------------------------------------------------------------------------------
+// class of an argument pair of an exact binary function (shared by c16_binary.cpp and
+// c16_cxtables.cpp so that one root cause gives the same class on both paths)
+// ---------------------------------------------------------------------------------------
+enum class Rel { order, quotient };
+
+/// class id: coarse(x) x coarse(y) x relation (only for finite non-zero pairs)
+template <typename T>
+int bin_class_id(T x, T y, Rel rel)
+{
+    int k = 0;
+    if (region_id(x) >= 5 && region_id(y) >= 5) {
+        if (rel == Rel::order) {
+            k = (x < y) ? 1 : (x > y) ? 2 : 3;
+        } else {
+            long double const q = std::fabs(static_cast<long double>(x) / static_cast<long double>(y));
+            k = (q < 1.0L) ? 1 : (q < std::ldexp(1.0L, FT<T>::mant + 1)) ? 2 : (q < 0x1p63L) ? 3 : 4;
+        }
+    }
+    return (coarse_id(x) * 7 + coarse_id(y)) * 5 + k;
+}
+inline std::string bin_class_name(int id, Rel rel)
+{
+    static char const* const ord[5] = {"", ":x<y", ":x>y", ":x==y", ""};
+    static char const* const quo[5] = {"", ":q<1", ":q<2^digits", ":q<2^63", ":q>=2^63"};
+    int const k = id % 5, c = id / 5;
+    return mc::cat(coarse_name(c / 7), ",", coarse_name(c % 7), rel == Rel::order ? ord[k] : quo[k]);
+}
+template <typename T>
+std::string bin_class(T x, T y, Rel rel)
+{
+    return bin_class_name(bin_class_id(x, y, rel), rel);
+}
+
+// ---------------------------------------------------------------------------------------
 // violation sink with counters: one slot per class id, first witness kept, flushed once
 // ---------------------------------------------------------------------------------------
 
